@@ -20,6 +20,8 @@ THEOREMS = [
     "c11_assignment_sets_and_activates", "c11_visible_same_round", "c11_later_member_reads_it",
     "c11_not_visible_to_earlier", "c11_next_round_starts_from_it", "c11_round_is_prelude_then_visits",
     "c11_kept_across_periods",
+    "c11_collected_over_any_rounds", "c11_computed_over_any_rounds", "c11_events_are_rounds",
+    "c11_collected_variable_end_to_end", "c11_computed_variable_end_to_end",
     "c11_sum_spec", "c11_sum_is_the_sum", "c11_avg_spec", "c11_min_spec", "c11_max_spec",
     "c11_med_spec", "c11_qsort_sorts", "c11_numeric_functions_ignore_nil", "c11_empty_input",
     "c11_all_nil_input", "c11_numeric_functions_refuse_strings",
@@ -49,7 +51,7 @@ ASSUMPTIONS = [
     "govaluate is modelled by Model/Expr.v for the generated expression subset (constants, variables, [actor signal], comparison, + - * /, function calls with the separator-built argument list incl. a single array argument spread and a single nil argument dropped)",
     "sort.Sort / sort.Float64s are represented by insertion sorts (Model/Functions.v vsort, qsort); sort.Sort is not stable, so the generator never puts a boolean and the number it converts to (0/1) into one `sorted` argument list",
     "log, sqrt, ndiff are not modelled (irrational results); the property's 'scalar functions' are covered for abs, floor, ceil, round",
-    "the theorems are layered: collect_seq specs (pure), one clause = one collect step / set_var (do_assigns), visibility and persistence over visit / visit_all / round; their composition over a whole event history is checked on the implementation by the chain oracle, not stated as one theorem",
+    "the end-to-end theorems (c11_collected_variable_end_to_end, c11_computed_variable_end_to_end) are about histories that run to their end without an evaluation error; for aborted histories the statement over arbitrary round sequences (c11_collected_over_any_rounds) applies up to the aborting round; 'the values its expression produced while its auditor was active' is the executable definition produced_rounds of Model/FunctionsSpec.v (dependency gates, activation incl. the closing round, declaration order)",
     "member names are distinct (the parser keys the audience by name); samples reach the audition only for signals with a sink (reproduced through the hook VerifSinks)",
 ]
 
